@@ -1660,6 +1660,10 @@ class Interp:
         key = self.contract_key(fi)
         if not force_inline and fi.qualname == "Signer.sign_envelope" and getattr(self, "sign_envelope_call_site", None) is not None and key != self.verifying:
             return self.sign_envelope_call_site(self, self.contracts.get(key), fi, args, kwargs)
+        summ = getattr(self, "call_site_summaries", None)
+        if not force_inline and summ and fi.qualname in summ and key != self.verifying:
+            # a contract may summarise a callee at ITS call sites by the part of the callee's verified contract it needs (recorded as an assumption)
+            return summ[fi.qualname](self, self.contracts.get(key), fi, args, kwargs)
         if not force_inline and key in self.contracts and (key != self.verifying or key in self.active_calls) and not (self.contracts[key].callers_inline and key not in self.active_calls) and self._in_scope(self.contracts[key]):
             from . import modular
             c = self.contracts[key]
